@@ -192,3 +192,43 @@ func setGlobalCurve(edd, other bool) {
 		tss.SetCurve(tss.S256())
 	}
 }
+
+// bigWatch remembers values handed to the library and reports the first one that no longer has the value
+// it had when it was registered (a result that aliases or overwrites an operand).
+type bigWatch struct {
+	names []string
+	vals  []*big.Int
+	was   []*big.Int
+}
+
+func (w *bigWatch) add(name string, vs ...*big.Int) {
+	for i, v := range vs {
+		if v == nil {
+			continue
+		}
+		n := name
+		if len(vs) > 1 {
+			n = fmt.Sprintf("%s[%d]", name, i)
+		}
+		w.names, w.vals, w.was = append(w.names, n), append(w.vals, v), append(w.was, new(big.Int).Set(v))
+	}
+}
+
+func (w *bigWatch) changed() string {
+	for i := range w.vals {
+		if w.vals[i].Cmp(w.was[i]) != 0 {
+			return fmt.Sprintf("%s (was %v, now %v)", w.names[i], w.was[i], w.vals[i])
+		}
+	}
+	return ""
+}
+
+// finish turns a changed operand into a violation of an otherwise passing outcome.
+func (w *bigWatch) finish(out *ev.Outcome, what string) {
+	if out.Err != nil || out.Skip {
+		return
+	}
+	if ch := w.changed(); ch != "" {
+		out.Err, out.Sig = fmt.Errorf("%s: an operand was modified by the call(s) it was passed to: %s", what, ch), "operand-modified"
+	}
+}
